@@ -261,6 +261,46 @@ func checkViewsL(t tcase, left, right []string, limit time.Duration) *mc.Failure
 		if len(base) > 0 && len(d.Chunks) == 0 {
 			return mc.Failf(0, "Unify lost all chunks")
 		}
+		// --- AddContext called again on the chunks of an earlier AddContext
+		// (which may already overlap): "after AddContext(n)" holds after
+		// every call, not only after the first one on a fresh Diff.
+		if len(left)+len(right) <= 64 && len(base) > 0 {
+			for _, m := range []int{1, t.N} {
+				if m == 0 || (m == 1 && t.N == 1) {
+					continue
+				}
+				d2 := mdiff.New(left, right).AddContext(t.N).AddContext(m)
+				stage := fmt.Sprintf("after AddContext(%d).AddContext(%d)", t.N, m)
+				if len(d2.Chunks) != len(base) {
+					return mc.Failf(0, "%s: %d chunks, were %d", stage, len(d2.Chunks), len(base))
+				}
+				for i, c := range d2.Chunks {
+					if _, f := mdiffh.ReplayChunk(c, left, right); f != nil {
+						return mc.Failf(0, "%s, chunk %d: %s", stage, i, f.Msg)
+					}
+					b := base[i]
+					pre, post := b.ls-c.LStart, c.LEnd-b.le
+					if pre < 0 || post < 0 || pre > t.N+m || post > t.N+m || b.rs-c.RStart != pre || c.REnd-b.re != post {
+						return mc.Failf(0, "%s, chunk %d grew by %d/%d lines before/after (left) and %d/%d (right)", stage, i, pre, post, b.rs-c.RStart, c.REnd-b.re)
+					}
+				}
+				if !sameEdits(d2.Edits, edits0) {
+					return mc.Failf(0, "%s disturbed Diff.Edits", stage)
+				}
+				d2.Unify()
+				for i, c := range d2.Chunks {
+					if _, f := mdiffh.ReplayChunk(c, left, right); f != nil {
+						return mc.Failf(0, "%s.Unify(), chunk %d: %s; all chunks %s", stage, i, f.Msg, mdiffh.Describe(d2.Chunks))
+					}
+				}
+				if f := ordered(d2.Chunks, true, stage+".Unify()"); f != nil {
+					return f
+				}
+				if f := mdiffh.Splice(d2.Chunks, left, right); f != nil {
+					return mc.Failf(0, "%s.Unify(): %s; chunks %s", stage, f.Msg, mdiffh.Describe(d2.Chunks))
+				}
+			}
+		}
 		return nil
 	})
 }
@@ -292,7 +332,7 @@ func main() {
 				r.Bound(fmt.Sprintf("alphabet_%d", d.vals), fmt.Sprintf("all pairs of line sequences up to length %d, every n from 0 to max(len)+1", d.maxLen))
 			}
 			r.AddEval(evals, evals, evals, multi)
-			r.Rule("New, AddContext(n), Unify on every pair and every context size; chunk replay, context bounds, ordering/disjointness, splice = Right, Edits and inputs undisturbed; non-trivial = cases with at least two chunks (context can interact)")
+			r.Rule("New, AddContext(n), Unify on every pair and every context size; chunk replay, context bounds, ordering/disjointness, splice = Right, Edits and inputs undisturbed; on a second Diff AddContext(n).AddContext(m) for m in {1,n} (the second call works on chunks that may already overlap), then Unify, same oracles; non-trivial = cases with at least two chunks (context can interact)")
 			r.Sample(tcase{[]int{0, 1}, []int{0, 0, 1, 0}, 2, nil})
 		},
 		Replay: func(c mc.Case) *mc.Failure {
